@@ -155,3 +155,35 @@ def gammaSq(v):
 
 def mu(xi, v):
     return (xi - v) / (1 - xi * v)
+
+
+# ---- CPython cross-check / native replay specifications of template-model methods
+TEMPLATE_ATTRS = ("mu", "nu", "psiN", "Tnucl", "alN", "cb", "cb2", "cs", "cs2", "wN", "pN", "vJ", "vMin", "rtol", "atol")
+
+
+def template_sample(rnd):
+    cb2, cs2 = rnd.uniform(0.2, 0.33), rnd.uniform(0.2, 0.33)
+    return {"mu": 1 + 1 / cs2, "nu": 1 + 1 / cb2, "psiN": rnd.uniform(0.5, 1.0), "Tnucl": rnd.uniform(0.5, 50), "alN": rnd.uniform(0.01, 0.3), "cb": cb2**0.5, "cs": cs2**0.5,
+            "cs2": cs2, "wN": 1.0, "pN": rnd.uniform(0.1, 0.3), "vJt": rnd.uniform(0.6, 0.9), "vMint": 0.01, "rtol": 1e-6, "atol": 1e-6, "epsilonT": 0.1}
+
+
+def template_cross(chk, method, paths, argnames, sample_args, result=None, rtol=1e-8, compare=None):
+    """CPython cross-check / native replay specification of a template method (the real class, attributes set directly)"""
+    from wgvc.crosscheck import Cross
+
+    def sample(rnd):
+        env = template_sample(rnd)
+        env.update(sample_args(rnd, env))
+        return env
+
+    def scenario(env):
+        attrs = {"mu": env["mu"], "nu": env["nu"], "psiN": env["psiN"], "Tnucl": env["Tnucl"], "alN": env["alN"], "cb": env["cb"], "cb2": env["cb"]**2,
+                 "cs": env["cs"], "cs2": env["cs2"], "wN": env["wN"], "pN": env["pN"], "vJ": env["vJt"], "vMin": env["vMint"], "rtol": env["rtol"], "atol": env["atol"]}
+        return {"module": "WallGo.hydrodynamicsTemplateModel", "method": method, "args": [env[a] if isinstance(a, str) else a for a in argnames],
+                "self": {"__stub__": "real", "module": "WallGo.hydrodynamicsTemplateModel", "class": "HydrodynamicsTemplateModel", "attrs": attrs}}
+    kw = {"result": result} if result else {}
+    if compare:
+        kw["compare"] = compare
+    chk.cross(Cross(f"HydrodynamicsTemplateModel.{method}", paths, sample, scenario, rtol=rtol, **kw))
+
+
